@@ -170,6 +170,31 @@ enum Ev {
 
 type SendResult = std::result::Result<diameter::transport::client::ResponseFuture, ()>;
 
+/// polls every future that has been handed out and is not known to be complete, once, without waiting
+fn observe(results: &mut Vec<Option<SendResult>>, resolved: &mut Vec<Option<String>>, at: usize) {
+    use std::future::Future;
+    resolved.resize(results.len(), None);
+    let waker = Waker::noop();
+    let mut cx = Context::from_waker(&waker);
+    for k in 0..results.len() {
+        if resolved[k].is_some() {
+            continue;
+        }
+        let ready = match &mut results[k] {
+            Some(Ok(fut)) => match Pin::new(fut).poll(&mut cx) {
+                Poll::Ready(Ok(m)) => Some(format!("GOT:{:x}:{:x}@{}", m.get_hop_by_hop_id(), m.get_end_to_end_id(), at)),
+                Poll::Ready(Err(_)) => Some(format!("ERR@{}", at)),
+                Poll::Pending => None,
+            },
+            _ => None,
+        };
+        if let Some(tok) = ready {
+            resolved[k] = Some(tok);
+            results[k] = None;
+        }
+    }
+}
+
 pub fn run(st: &State, t: &mut Toks) -> PResult<String> {
     let dict = st.dicts.get(t.next()?).ok_or_else(|| "unknown dict".to_string())?.clone();
     let n = t.usize_dec()?;
@@ -216,9 +241,11 @@ pub fn run(st: &State, t: &mut Toks) -> PResult<String> {
             let client = Arc::new(tokio::sync::Mutex::new(client));
             let mut results: Vec<Option<SendResult>> = Vec::new();
             let mut dropped: Vec<usize> = Vec::new();
+            let mut resolved: Vec<Option<String>> = Vec::new();
             let mut inflight: Option<(usize, tokio::task::JoinHandle<SendResult>)> = None;
             let mut emitted: u32 = 0;
-            for e in evs {
+            let nev = evs.len();
+            for (ei, e) in evs.into_iter().enumerate() {
                 match e {
                     Ev::R(h) => {
                         // a previous send still blocked: finish it first (the API is &mut self)
@@ -265,7 +292,7 @@ pub fn run(st: &State, t: &mut Toks) -> PResult<String> {
                             }
                         }
                         let still_sending = matches!(inflight, Some((idx, _)) if idx == k);
-                        let has_future = matches!(results.get(k), Some(Some(Ok(_))));
+                        let has_future = matches!(results.get(k), Some(Some(Ok(_)))) || matches!(resolved.get(k), Some(Some(_)));
                         if !still_sending && has_future && !dropped.contains(&k) {
                             dropped.push(k);
                             results[k] = None; // drops the ResponseFuture (and with it the oneshot Receiver)
@@ -313,16 +340,32 @@ pub fn run(st: &State, t: &mut Toks) -> PResult<String> {
                     },
                 }
                 settle().await;
+                // a send that has returned by now is collected, and every future handed out so far is polled once:
+                // the index of the event after which a future was first seen completed is part of the observation
+                if let Some((idx, jh)) = inflight.take() {
+                    if jh.is_finished() {
+                        results[idx] = Some(jh.await.unwrap_or(Err(())));
+                    } else {
+                        inflight = Some((idx, jh));
+                    }
+                }
+                observe(&mut results, &mut resolved, ei);
             }
             if let Some((idx, jh)) = inflight.take() {
                 duplex.allow(None);
                 results[idx] = Some(jh.await.unwrap_or(Err(())));
             }
             settle().await;
+            observe(&mut results, &mut resolved, nev);
             let mut out = String::from("CL");
             for (k, r) in results.into_iter().enumerate() {
                 if dropped.contains(&k) {
                     out.push_str(" DROPPED");
+                    continue;
+                }
+                if let Some(Some(tok)) = resolved.get(k) {
+                    out.push(' ');
+                    out.push_str(tok);
                     continue;
                 }
                 match r {
